@@ -373,6 +373,24 @@ func runC16(rc *RunCtx) {
 			}
 		}
 	}
+	// one field at a time at many more sizes (lengths that equal 32 modulo 2^8 or 2^16, powers of two, off by one)
+	oneSizes := []int{0, 1, 8, 12, 20, 31, 33, 63, 64, 65, 96, 255, 256, 257, 287, 288, 289, 320, 544, 1056, 4128, 65535, 65536, 65568, 65600, 131104}
+	for _, l := range oneSizes {
+		for f := 0; f < 3; f++ {
+			m := &ref.Message{Version: 0, SrcDomain: 4, DstDomain: 1, Nonce: 7, Sender: structured(32, 0x11), Recipient: structured(32, 0x55), Caller: structured(32, 0x99), Body: structured(5, 0xc1)}
+			bm := &ref.BurnMessage{Version: 0, BurnToken: structured(32, 0x21), MintRecipient: structured(32, 0x61), Amount: big.NewInt(5), Sender: structured(32, 0xa1)}
+			switch f {
+			case 0:
+				m.Sender, bm.BurnToken = structured(l, 0x11), structured(l, 0x21)
+			case 1:
+				m.Recipient, bm.MintRecipient = structured(l, 0x55), structured(l, 0x61)
+			default:
+				m.Caller, bm.Sender = structured(l, 0x99), structured(l, 0xa1)
+			}
+			c16EncodeMessage(rc, m, "one-field-size")
+			c16EncodeBurn(rc, bm, "one-field-size")
+		}
+	}
 	for _, v := range u32s {
 		for _, n := range u64s {
 			c16EncodeMessage(rc, &ref.Message{Version: v, SrcDomain: v ^ 0xa5a5a5a5, DstDomain: ^v, Nonce: n, Sender: structured(32, 1), Recipient: structured(32, 2), Caller: structured(32, 3), Body: structured(int(n%97), 4)}, "extremes")
